@@ -147,6 +147,31 @@ def run(ctx):
             ok = lo - dt.timedelta(milliseconds=1) <= g <= hi + dt.timedelta(milliseconds=1) and got.split("|")[1] == "naive"
         if not ok:
             nowv.append({"s": "2 hours ago", "settings": st, "expected_between": [str(lo), str(hi)], "observed": got or r})
+    # implicit now under a controlled clock: instants around DST changes of the TIMEZONE zone, including the *first* occurrence of the repeated
+    # hour (where the zone's wall clock alone does not determine the instant); clock units are elapsed time from the current instant
+    from common import pmap, lib_gdd as _gdd
+    ck_cases = []
+    for zn, clocks in (("Europe/Paris", [D(2020, 10, 25, 0, 30), D(2020, 10, 25, 1, 30), D(2020, 10, 24, 23, 45), D(2020, 3, 29, 0, 30), D(2020, 3, 29, 1, 15), D(2020, 7, 1, 12, 0)]),
+                       ("America/New_York", [D(2021, 11, 7, 5, 30), D(2021, 11, 7, 6, 30), D(2021, 3, 14, 6, 30), D(2021, 3, 14, 7, 5)]),
+                       ("Australia/Lord_Howe", [D(2022, 4, 2, 14, 45), D(2022, 4, 2, 15, 15)])):
+        z = pytz.timezone(zn)
+        for ck in clocks:
+            inst = ck.replace(tzinfo=dt.timezone.utc)
+            for ph, secs in (("in 1 hour", 3600), ("1 hour ago", -3600), ("30 minutes ago", -1800), ("in 90 minutes", 5400), ("in 45 seconds", 45), ("in 3 hours", 10800), ("2 hours ago", -7200)):
+                for b2 in (None, "UTC", "+0530"):
+                    x = (inst + dt.timedelta(seconds=secs)).astimezone(tzobj(b2) if b2 else z)
+                    st = {"TIMEZONE": zn}
+                    if b2:
+                        st["TO_TIMEZONE"] = b2
+                    ck_cases.append({"s": ph, "langs": ["en"], "settings": st, "clock": ck, "expect": expect_str(x.replace(tzinfo=None), period="day")})
+    ck_res = pmap(_gdd, [{k: v for k, v in c.items() if k != "expect"} for c in ck_cases], force=True)
+    from props.base import strip_locale
+    for c, r in zip(ck_cases, ck_res):
+        got = r.get("r") if "r" in r else "ERR:" + str(r.get("e"))
+        if (strip_locale(got) if got and not got.startswith("ERR:") else got) != c["expect"]:
+            nowv.append({"s": c["s"], "settings": c["settings"], "system_clock_utc": str(c["clock"]), "expected": c["expect"], "observed": got})
+    res["coverage"]["implicit_now_controlled_clock_cases"] = len(ck_cases)
+    res["coverage"]["evaluations"] += len(ck_cases)
     for j, v in enumerate(nowv[:5]):
         res["violations"].append({"replay": write_replay("C04", "now-%d" % j, {"property": "C04", "kind": "implicit now is not the current instant in TIMEZONE/TO_TIMEZONE", **v})})
     res["coverage"]["implicit_now_pairs"] = len(pairs)
